@@ -175,6 +175,33 @@ def binaryOp (op : Tag) (l r : Val) : BinOut :=
         let m := Re.isMatch re l.str!
         .val (.bool (if op == .bangTilde then !m else m))
 
+/-- the member / index step of `evalBinaryExpr` (src/evaluator.go:569-621) on evaluated operands:
+    an unset base becomes an array (numeric key) or object, then `GetMember`; a missing member
+    yields a speculative null remembering parent and key, a method a bound copy -/
+def memberStep (pos : Nat) (left right : CellId) : EM CellId := do
+  let rv ← readCell right
+  if (← readCell left).kind == .unknown then
+    let h ← getHeap
+    match rv with
+    | .num _ => let (a, h') := h.allocArr #[]; setHeap h'; writeCell left (.arr a)
+    | _ => let (o, h') := h.allocObj []; setHeap h'; writeCell left (.obj o)
+  let lv ← readCell left
+  let h ← getHeap
+  match getMember h lv rv with
+  | .error m => throwRt pos m
+  | .ok .missing =>
+    let key : Key := match rv with
+      | .num x => .num x
+      | _ => .str rv.str!
+    newCell (.nil (some ⟨left, key⟩))
+  | .ok (.method f) => newCell (.native f (some left) (some ⟨left, .str rv.str!⟩))
+  | .ok (.char none x) => newCell (.nil (some ⟨left, .num x⟩))
+  | .ok (.char (some ch) x) => newCell (.str ch (some ⟨left, .num x⟩))
+  | .ok (.cell c) =>
+    match h.get c with
+    | .native f _ _ => newCell (.native f (some left) (some ⟨left, .str rv.str!⟩))
+    | _ => return c
+
 /-- `e.stackTop.locals[k] = v` for every binding -/
 def bindAll : List (Bytes × CellId) → EM Unit
   | [] => pure ()
@@ -400,29 +427,7 @@ def evalBinary : Nat → Expr → Expr → Token → EM CellId
     | _ =>
       let right ← evalExpr n r
       match op.tag with
-      | .lsquare | .dot =>
-        let rv ← readCell right
-        if (← readCell left).kind == .unknown then
-          let h ← getHeap
-          match rv with
-          | .num _ => let (a, h') := h.allocArr #[]; setHeap h'; writeCell left (.arr a)
-          | _ => let (o, h') := h.allocObj []; setHeap h'; writeCell left (.obj o)
-        let lv ← readCell left
-        let h ← getHeap
-        match getMember h lv rv with
-        | .error m => throwRt l.token.pos m
-        | .ok .missing =>
-          let key : Key := match rv with
-            | .num x => .num x
-            | _ => .str rv.str!
-          newCell (.nil (some ⟨left, key⟩))
-        | .ok (.method f) => newCell (.native f (some left) (some ⟨left, .str rv.str!⟩))
-        | .ok (.char none x) => newCell (.nil (some ⟨left, .num x⟩))
-        | .ok (.char (some ch) x) => newCell (.str ch (some ⟨left, .num x⟩))
-        | .ok (.cell c) =>
-          match h.get c with
-          | .native f _ _ => newCell (.native f (some left) (some ⟨left, .str rv.str!⟩))
-          | _ => return c
+      | .lsquare | .dot => memberStep l.token.pos left right
       | .equal => evalAssignment l.token.pos left right
       | t =>
         if isCompareOp t || isArithOp t || t == .tilde || t == .bangTilde then
